@@ -12,7 +12,7 @@ from framework import Result, finish, proof_obligations
 
 PROP = "C09"
 NEEDS = ["model/Values.v", "model/Eval.v", "model/Loader.v", "model/Serialize.v", "model/Unparse.v", "model/Skeleton.v", "proofs/SerializeP.v",
-         "proofs/UnparseP.v", "extract/Extract.v"]
+         "proofs/UnparseP.v", "proofs/RoundtripP.v", "extract/Extract.v"]
 EXTREME_F = [0.0, -0.0, 1.0, -1.5, 5e-324, 2.2250738585072014e-308, 1e300, -1e300, 1e-300, 1.7976931348623157e308, 0.1, 1 / 3, 123456789.123456789, 1e22, 1e-7, 1e16]
 EXTREME_I = [0, 1, -1, 7, 2 ** 31, -2 ** 31, 2 ** 53 + 1, 2 ** 62, -(2 ** 62)]
 
@@ -37,7 +37,26 @@ def scalar(rng, flavour=None):
     return rng.choice(["fock", "a b", "", "x#y", "p0", "1+2", "name", "sin(1)", "é"])
 
 
+_RECENT = []
+
+
 def array(rng):
+    # now and then: the same elements as an earlier array in another shape (1xN vs Nx1 vs reshaped), or the very same array
+    if _RECENT and rng.random() < 0.35:
+        a = rng.choice(_RECENT)
+        n = a.size
+        shapes = [(r, n // r) for r in range(1, n + 1) if n % r == 0]
+        b = a.reshape(rng.choice(shapes)).copy()
+        if rng.random() < 0.3:
+            b = a.T.copy()
+        return b
+    a = _array(rng)
+    _RECENT.append(a)
+    del _RECENT[:-4]
+    return a
+
+
+def _array(rng):
     r, c = rng.randint(1, 4), rng.randint(1, 4)
     k = rng.choice(["int", "float", "complex"])
     if k == "int":
@@ -67,6 +86,7 @@ def symexpr(rng, params):
 
 def build(rng):
     from blackbird import BlackbirdProgram
+    del _RECENT[:]
     p = BlackbirdProgram(name=rng.choice(["prog", "api_1", "X"]), version=rng.choice(["1.0", "1.1"]))
     params = set()
     if rng.random() < 0.5:
